@@ -107,6 +107,9 @@ type Profile struct {
 	GC         bool
 	Ports      bool
 	SetupIPT   bool
+	RealGCRun  bool // start the collectors with the real Run() (periodic loops) before the start-time synchronisation, as Galaxy.Start does
+	States     bool // container states change (without GC rounds of the world's own)
+	Hostile    bool // C18: hostile requests, annotations, configuration texts and state files
 }
 
 func profileFor(prop string) Profile {
@@ -119,6 +122,13 @@ func profileFor(prop string) Profile {
 		// the quantifier of C17 is inputs x fault sequences, not schedules: operations (requests, GC rounds, state
 		// changes) do not overlap; the two collectors of a round still interleave with each other
 		return Profile{Ops: [2]int{6, 28}, Runtime: true, GC: true, Ports: true, SetupIPT: true}
+	case "C19":
+		// maximal concurrency on one shared instance: concurrent requests of several containers through the real
+		// handler, the real GC loops and the real periodic EnsureBasicRule loop ticking while requests are in flight,
+		// pod store updates; no crash, no injected environment faults (scripted plugin failures exercise rollback)
+		return Profile{Ops: [2]int{10, 34}, Concurrent: true, Ports: true, SetupIPT: true, RealGCRun: true, States: true}
+	case "C18":
+		return Profile{Ops: [2]int{6, 24}, Concurrent: false, Ports: true, SetupIPT: true, Hostile: true, States: true, RealGCRun: true}
 	}
 	return Profile{Ops: [2]int{4, 20}, Concurrent: true, SetupIPT: true}
 }
@@ -187,6 +197,8 @@ type World struct {
 	syncOK      int
 
 	killDaemonSoon bool
+	rawBusy        map[string]*core.Task // hostile raw requests in flight (C18)
+	badConfig      bool                  // a hostile galaxy.json is installed (C18)
 	halfWritten    map[string]bool // files created (truncated) by the daemon whose write has not happened yet
 	crashBudget    int
 	crashAt        int
@@ -211,7 +223,7 @@ func (w *World) armed(p string) bool { return w.prop == p }
 func NewWorld(s *core.Sim, prop string, cfg *Config, solo *SoloSpec) *World {
 	w := &World{S: s, C: s.C, prop: prop, prof: profileFor(prop), solo: solo, byID: map[string]*Container{}, cur: map[int]*Container{},
 		made: map[int]int{}, reqs: map[string]*Request{}, attempts: map[string]int{}, leftovers: map[string]*Leftover{},
-		gcBusy: map[string]*core.Task{}, gcState: map[*core.Task]*gcTaskState{}, halfWritten: map[string]bool{}}
+		gcBusy: map[string]*core.Task{}, gcState: map[*core.Task]*gcTaskState{}, halfWritten: map[string]bool{}, rawBusy: map[string]*core.Task{}}
 	c := w.C
 	if cfg == nil {
 		cfg = genConfig(c, prop)
@@ -250,7 +262,12 @@ func NewWorld(s *core.Sim, prop string, cfg *Config, solo *SoloSpec) *World {
 		w.leftovers[lo.ID] = lo
 	}
 	s.OnPanic = w.onPanic
-	s.OnLockLeak = func(t *core.Task, held int) { w.S.Stat("lockleak") }
+	s.OnLockLeak = func(t *core.Task, held int) {
+		w.S.Stat("lockleak")
+		if w.armed("C18") {
+			w.fail("C18.lock-leak", "lock-leak", "task %s ended while holding %d lock(s)", t.Name, held)
+		}
+	}
 	w.phase = 1
 	w.faultsOn = true
 	if solo != nil {
@@ -266,6 +283,10 @@ func NewWorld(s *core.Sim, prop string, cfg *Config, solo *SoloSpec) *World {
 	if w.prof.Concurrent {
 		w.maxInfl = 1 + c.Choose(4)
 		w.opGap = []int{0, 4, 15, 40}[c.Choose(4)]
+		if prop == "C19" {
+			w.maxInfl = 2 + c.Choose(4)
+			w.opGap = []int{0, 2, 6}[c.Choose(3)]
+		}
 	}
 	// fault swarm: most runs enable few kinds at low rates
 	rate := func(on bool) int {
@@ -335,7 +356,7 @@ func (w *World) StartProcess() {
 	w.starts++
 	w.startErr = ""
 	inst := w.inst
-	p := startParams{JSONConfigPath: jsonConfigPath, ConfDir: confDir, CNIPaths: []string{galaxyCNIPath}, SetupIPtables: w.prof.SetupIPT}
+	p := startParams{JSONConfigPath: jsonConfigPath, ConfDir: confDir, CNIPaths: []string{galaxyCNIPath}, SetupIPtables: w.prof.SetupIPT, RunGC: w.prof.RealGCRun}
 	w.preStart = w.Kern.Lines("nat")
 	t := w.S.Spawn(fmt.Sprintf("init#%d", w.proc), w.proc, func() { startDaemon(inst, p) })
 	t.Tag = "init"
@@ -497,9 +518,17 @@ func (w *World) handleReport(t *core.Task, r *core.Req) core.Resp {
 		w.S.Stat("daemon.startfailed")
 		w.S.Logf("daemon start failed at %s: %s", r.A[0], r.A[1])
 		w.startErr = r.A[0] + ": " + r.A[1]
-		if w.unscripted == 0 && w.iptRate == 0 && w.apiRate == 0 && w.fsRate == 0 {
+		if w.badConfig {
+			// a hostile configuration text was refused with an error: the expected outcome; back to the good one
+			w.S.Stat("probe.hostile-config-refused")
+			w.restoreConfig()
+		} else if w.unscripted == 0 && w.iptRate == 0 && w.apiRate == 0 && w.fsRate == 0 {
 			// nothing was injected: the daemon cannot start on this node
-			if w.armed("C14") && r.A[0] == "setup-iptables" {
+			if w.armed("C18") {
+				// no hostile configuration text is installed and nothing was injected, yet the daemon refuses to start:
+				// with the objects now in the API server it can never come up again (crash loop)
+				w.fail("C18.crash-loop", "start-fails@"+r.A[0], "with the good configuration and without any injected fault the daemon fails to start (%s): %s", r.A[0], r.A[1])
+			} else if w.armed("C14") && r.A[0] == "setup-iptables" {
 				w.fail("C14.full-sync", "full-sync-fails", "start-time synchronisation failed without any injected fault: %s", r.A[1])
 			} else if r.A[0] != "setup-iptables" {
 				w.S.Infra = "daemon failed to start: " + w.startErr
@@ -517,6 +546,10 @@ func (w *World) handleReport(t *core.Task, r *core.Req) core.Resp {
 		rq.Code, _ = strconv.Atoi(r.A[1])
 		rq.Resp = r.B
 		w.requestEnded(rq, false)
+		return core.Resp{}
+	case "w.rawdone":
+		delete(w.rawBusy, r.A[0])
+		w.S.Stat("hostile.raw-answered." + r.A[1])
 		return core.Resp{}
 	case "w.gcdone":
 		w.onGCDone(t, r.A[0], r.A[2])
@@ -545,6 +578,15 @@ func (w *World) onPanic(t *core.Task, msg string) {
 	}
 	// a panic inside galaxy code ends the request (net/http recovers it); a verdict only for C18
 	w.S.Stat("panic.galaxy")
+	if w.armed("C18") {
+		site := panicSite(msg)
+		w.fail("C18.panic", "panic@"+site, "task %s panicked: %s at %s", t.Name, first, site)
+	}
+	for _, id := range sortedKeys(w.rawBusy) {
+		if w.rawBusy[id] == t {
+			delete(w.rawBusy, id)
+		}
+	}
 	if rq := reqOf(t); rq != nil && !rq.Done {
 		rq.Done = true
 		rq.Code = -2
@@ -588,6 +630,11 @@ func (w *World) reap() {
 			delete(w.gcBusy, k)
 		}
 	}
+	for _, k := range sortedKeys(w.rawBusy) {
+		if w.taskDone(w.rawBusy[k]) {
+			delete(w.rawBusy, k)
+		}
+	}
 }
 
 func sortedKeys[V any](m map[string]V) []string {
@@ -612,7 +659,7 @@ func (w *World) Actions() []core.Action {
 		return nil
 	}
 	if w.phase == 1 {
-		busy := len(w.inflight) + len(w.gcBusy)
+		busy := len(w.inflight) + len(w.gcBusy) + len(w.rawBusy)
 		calm := len(w.S.Enabled()) == 0
 		if w.opsLeft > 0 && busy < w.maxInfl && (calm || busy == 0 || w.S.Steps-w.lastOp >= w.opGap) {
 			acts = append(acts, core.Action{Name: "op", Do: func() { w.lastOp = w.S.Steps; w.doOp() }})
@@ -652,8 +699,12 @@ func (w *World) Idle() bool {
 		w.S.Infra = "daemon never became ready"
 		return false
 	}
-	if len(w.inflight) > 0 || len(w.gcBusy) > 0 {
+	if len(w.inflight) > 0 || len(w.gcBusy) > 0 || len(w.rawBusy) > 0 {
 		if b := w.S.Blocked(); len(b) > 0 {
+			if w.armed("C18") {
+				w.fail("C18.wedged", "wedged", "%d request(s) can never complete: tasks blocked forever on locks: %v", len(b), taskNames(b))
+				return false
+			}
 			w.S.Infra = "tasks blocked forever on locks"
 			return false
 		}
@@ -679,4 +730,12 @@ func (w *World) Idle() bool {
 		return w.finalPhase()
 	}
 	return false
+}
+
+func taskNames(ts []*core.Task) []string {
+	var out []string
+	for _, t := range ts {
+		out = append(out, t.Name)
+	}
+	return out
 }
